@@ -1113,6 +1113,21 @@ def run_maths(desc, ctx):
                 sep = min(abs(vals[i] - vals[j]) for i in range(n) for j in range(i))
                 ctx.check(sep >= math.sin(math.pi / n), "maths", "roots_distinct", "roots_not_distinct",
                           "the n n-th roots are not pairwise distinct", c=[cc.real, cc.imag], n=n, min_separation=sep)
+        # the documented option normalize=False: the roots keep the modulus |c|**(1/n), so raised to n they give back c itself
+        if ok and 1e-6 <= abs(cc) <= 1e6:
+            ok2, rs2 = sent.call("roots", MM.roots, c, n, rng.choice((False, 0)) if it % 2 else False, law_monitor="maths") if it % 3 else \
+                sent.call("roots", lambda a, b: MM.roots(a, b, normalize=False), c, n, law_monitor="maths")
+            if ok2:
+                try:
+                    vals2 = [complex(r) for r in rs2]
+                except Exception:
+                    vals2 = None
+                if vals2 is None or len(vals2) != n:
+                    ctx.check(False, "maths", "roots", "not_n_roots", "roots(c,n,normalize=False) did not return n complex numbers", n=n, got=repr(rs2)[:200])
+                else:
+                    worst2 = max(abs(v ** n - cc) for v in vals2) / abs(cc)
+                    ctx.check(worst2 <= 1e-12 * (1 + n), "maths", "roots", "unnormalised_root_to_the_n_is_not_the_input",
+                              "with normalize=False a root raised to the n-th power differs from c", c=[cc.real, cc.imag], n=n, worst=worst2)
         # other entry points of the module: side effects only
         if it % 5 == 0:
             sent.call("roots", MM.roots, c, n, False, expect=(Exception,), law_monitor="maths")
